@@ -103,7 +103,7 @@ def eval_expr(f, i, val):
     return None
 
 
-def dominating_atoms(f, pos):
+def _dominating_atoms_basic(f, pos):
     """[(atom node id, truth)] of every two-way branch edge that dominates `pos`, plus (switch cond, case value)
     pairs as ('case', cond node, value)"""
     out = []
@@ -128,6 +128,81 @@ def dominating_atoms(f, pos):
             if f.edge_dominates((b["id"], s), pos):
                 for a, t in q.cond_atoms(f, c, k == 0):
                     out.append((a, t))
+    return out
+
+
+def _canon(f, node, truth):
+    """canonical form of an atom for contradiction tests"""
+    n = f.nodes[f.strip(node)]
+    cmp_ = None
+    if n["k"] == "BinaryOperator" and len(n["c"]) == 2 and n.get("op") in ("<", "<=", ">", ">=", "==", "!="):
+        cmp_ = (n["c"][0], n["c"][1], n["op"])
+    elif n["k"] == "CXXOperatorCallExpr" and len(n["c"]) == 3 and n.get("oop") in ("<", "<=", ">", ">=", "==", "!="):
+        cmp_ = (n["c"][1], n["c"][2], n["oop"])      # overloaded comparison (iterators, strings)
+    if cmp_ is not None:
+        l, r, op = key(f, cmp_[0]), key(f, cmp_[1]), cmp_[2]
+        if not truth:
+            op = {"<": ">=", "<=": ">", ">": "<=", ">=": "<", "==": "!=", "!=": "=="}[op]
+        if op == ">":
+            l, r, op = r, l, "<"
+        elif op == ">=":
+            l, r, op = r, l, "<="
+        if op in ("==", "!=") and r < l:
+            l, r = r, l
+        return (l, op, r)
+    if n["k"] == "UnaryOperator" and n.get("op") == "!" and n["c"]:
+        return _canon(f, n["c"][0], not truth)
+    return ("val", key(f, node), bool(truth))
+
+
+def _contradict(x, y):
+    if x[0] == "val" and y[0] == "val":
+        return x[1] == y[1] and x[2] != y[2]
+    if x[0] == "val" or y[0] == "val":
+        # `p` false vs `p != 0` ...: (l,'!=','0') contradicts ('val', l, False)
+        v, rel = (x, y) if x[0] == "val" else (y, x)
+        if rel[1] in ("==", "!=") and "0" in (rel[0], rel[2]) and v[1] in (rel[0], rel[2]):
+            return (rel[1] == "!=") != v[2]
+        return False
+    if x[0] == y[0] and x[2] == y[2]:
+        return {x[1], y[1]} == {"==", "!="} or {x[1], y[1]} == {"==", "<"}
+    if x[0] == y[2] and x[2] == y[0]:
+        return (x[1], y[1]) in (("<", "<="), ("<=", "<"), ("<", "<"), ("<", "=="), ("==", "<"))
+    return False
+
+
+def dominating_atoms(f, pos):
+    """atoms of the dominating branch edges, plus what follows from them at joins: when control can enter a dominating join block
+    over several edges and the later tests rule out all but one of them, the atoms of that remaining edge hold as well
+    (`while(i != end && !match(i)) ++i; if(i == end) return; ...` - here match(i) holds)."""
+    cache = getattr(f, "_atoms_cache", None)
+    if cache is None:
+        cache = f._atoms_cache = {}
+    if pos in cache:
+        return cache[pos]
+    base = _dominating_atoms_basic(f, pos)
+    out = list(base)
+    known = [_canon(f, a[0], a[1]) for a in base if a[0] != "case"]
+    for J, blk in f.blocks.items():
+        preds = f.preds.get(J, [])
+        if len(preds) < 2 or not f.dominates_pos((J, 0), pos) or (J, 0) == pos:
+            continue
+        at_J = set((a[0], a[1]) for a in _dominating_atoms_basic(f, (J, 0)) if a[0] != "case")
+        alts = []
+        for p_ in preds:
+            pb = f.blocks[p_]
+            edge = []
+            c_ = pb.get("cond")
+            if c_ is not None and len(pb["succ"]) == 2 and pb.get("tk") != "SwitchStmt" and pb["succ"][0] != pb["succ"][1]:
+                edge = list(q.cond_atoms(f, c_, pb["succ"][0] == J))
+            own = [(a[0], a[1]) for a in _dominating_atoms_basic(f, (p_, len(pb["el"]))) if a[0] != "case" and (a[0], a[1]) not in at_J]
+            alts.append(edge + own)
+        alive = [al for al in alts if not any(_contradict(_canon(f, n_, t_), k_) for (n_, t_) in al for k_ in known)]
+        if len(alive) == 1 and len(alts) > 1:
+            for (n_, t_) in alive[0]:
+                if (n_, t_) not in out:
+                    out.append((n_, t_))
+    cache[pos] = out
     return out
 
 
